@@ -69,47 +69,96 @@ Ltac exact_args_cases :=
    preceded by klong) called through _eval_fn's frame with as many arguments as it declares is
    applied exactly once, to exactly those arguments in order; the scope stack is restored.
    Holds in ANY enclosing scope stack. *)
-Lemma call_exact : forall fl st c l args,
+(* arguments that _eval_fn's second evaluation leaves alone (everything but a symbol bound in the scope stack) *)
+Definition stable (c : ctx) (args : list val) : Prop := map (reval c) args = args.
+
+(* the outcome of one call: logged once; the callable's result, or its exception *)
+Definition called (st : state) (c : pyc) (args : list val) : state * res :=
+  (mkState (scx st) (log st ++ [(pid c, args)]),
+   if praises c args then RErr else RVal (VPyRes (pid c) args)).
+
+Lemma call_general : forall fl st c l args,
   args_positional fl = true -> In l all_sigs -> sig_of c l -> length args = length l ->
-  call_lambda fl st c args = applied st c args.
+  stable (scx st) args -> (pop_finally fl = true \/ praises c args = false) ->
+  call_lambda fl st c args = called st c args.
 Proof.
-  intros fl st [p ps] l args Hf Hin [Hs|Hs] Hlen; cbn in Hs; subst ps;
+  intros fl st [p ps pr] l args Hf Hin [Hs|Hs] Hlen Hst Hp; cbn in Hs; subst ps;
+    unfold call_lambda, call_frame; rewrite Hst; clear Hst;
     unfold all_sigs in Hin; exact_args_cases;
     cbn in Hlen;
     repeat (destruct args as [|? args]; cbn in Hlen; try lia);
-    unfold call_lambda, lam_call, lam_args, provide_klong, applied; cbn; rewrite Hf; cbn; reflexivity.
+    unfold lam_call, lam_args, provide_klong, called, after_call; cbn; rewrite Hf; cbn;
+    cbn in Hp; (destruct Hp as [Hp|Hp]; [rewrite Hp; destruct (pr _); reflexivity | rewrite Hp; reflexivity]).
+Qed.
+
+Lemma call_exact : forall fl st c l args,
+  args_positional fl = true -> In l all_sigs -> sig_of c l -> length args = length l ->
+  stable (scx st) args -> praises c args = false ->
+  call_lambda fl st c args = applied st c args.
+Proof.
+  intros fl st c l args Hf Hin Hs Hlen Hst Hp.
+  rewrite (call_general fl st c l args Hf Hin Hs Hlen Hst (or_intror Hp)). unfold called, applied. rewrite Hp. reflexivity.
+Qed.
+
+(* a raising callable: called once (logged), the error propagates, the scope stack is restored *)
+Lemma call_raises : forall fl st c l args,
+  args_positional fl = true -> pop_finally fl = true -> In l all_sigs -> sig_of c l -> length args = length l ->
+  stable (scx st) args -> praises c args = true ->
+  call_lambda fl st c args = (mkState (scx st) (log st ++ [(pid c, args)]), RErr).
+Proof.
+  intros fl st c l args Hf Hpop Hin Hs Hlen Hst Hp.
+  rewrite (call_general fl st c l args Hf Hin Hs Hlen Hst (or_introl Hpop)). unfold called. rewrite Hp. reflexivity.
 Qed.
 
 (* the same for the name-set prefixes, whatever the flag (the behaviour before the fix) *)
 Lemma call_exact_prefix : forall fl st c l args,
   In l prefix_sigs -> sig_of c l -> length args = length l ->
+  stable (scx st) args -> praises c args = false ->
   call_lambda fl st c args = applied st c args.
 Proof.
-  intros fl st [p ps] l args Hin [Hs|Hs] Hlen; cbn in Hs; subst ps;
+  intros fl st [p ps pr] l args Hin [Hs|Hs] Hlen Hst Hp; cbn in Hs; subst ps;
+    unfold call_lambda, call_frame; rewrite Hst; clear Hst;
     unfold prefix_sigs in Hin; exact_args_cases;
     cbn in Hlen;
     repeat (destruct args as [|? args]; cbn in Hlen; try lia);
-    unfold call_lambda, lam_call, lam_args, provide_klong, applied; cbn; destruct (args_positional fl); cbn; reflexivity.
+    unfold lam_call, lam_args, provide_klong, applied, after_call; cbn; destruct (args_positional fl); cbn;
+    cbn in Hp; rewrite Hp; reflexivity.
 Qed.
 
 Lemma lam_arity_sig : forall fl c l, args_positional fl = true -> In l all_sigs -> sig_of c l ->
   lam_arity fl c = length l.
 Proof.
-  intros fl [p ps] l Hf Hin [Hs|Hs]; cbn in Hs; subst ps; unfold all_sigs in Hin; exact_args_cases;
+  intros fl [p ps pr] l Hf Hin [Hs|Hs]; cbn in Hs; subst ps; unfold all_sigs in Hin; exact_args_cases;
     unfold lam_arity, lam_args; cbn; rewrite Hf; reflexivity.
 Qed.
 
 (* the Klong application n(a1;...;ak) of a name bound to a wrapped callable *)
+Lemma apply_full : forall fl st n c l args,
+  args_positional fl = true -> In l all_sigs -> sig_of c l -> length args = length l ->
+  c_lookup (scx st) n = Some (EPy c) ->
+  apply_name fl st n args = call_lambda fl st c args.
+Proof.
+  intros fl st n c l args Hf Hin Hs Hlen Hn. unfold apply_name. rewrite Hn.
+  rewrite (lam_arity_sig fl c l Hf Hin Hs). rewrite <- Hlen.
+  rewrite (proj2 (Nat.ltb_ge _ _) (le_n _)). reflexivity.
+Qed.
+
 Lemma apply_exact : forall fl st n c l args,
   args_positional fl = true -> In l all_sigs -> sig_of c l -> length args = length l ->
   c_lookup (scx st) n = Some (EPy c) ->
+  stable (scx st) args -> praises c args = false ->
   apply_name fl st n args = applied st c args.
 Proof.
-  intros fl st n c l args Hf Hin Hs Hlen Hn. unfold apply_name. rewrite Hn.
-  destruct args as [|a args].
-  - apply (call_exact fl st c l []); assumption.
-  - rewrite (lam_arity_sig fl c l Hf Hin Hs). rewrite <- Hlen.
-    rewrite (proj2 (Nat.ltb_ge _ _) (le_n _)). apply (call_exact fl st c l); assumption.
+  intros fl st n c l args Hf Hin Hs Hlen Hn Hst Hp.
+  rewrite (apply_full fl st n c l args Hf Hin Hs Hlen Hn). apply (call_exact fl st c l); assumption.
+Qed.
+
+(* fewer arguments than declared (none included): the callable is NOT called, the call object comes back *)
+Lemma apply_under : forall fl st n c args,
+  c_lookup (scx st) n = Some (EPy c) -> (length args < lam_arity fl c)%nat ->
+  apply_name fl st n args = (st, RUnapplied).
+Proof.
+  intros fl st n c args Hn Hl. unfold apply_name. rewrite Hn. rewrite (proj2 (Nat.ltb_lt _ _) Hl). reflexivity.
 Qed.
 
 (* ------------------------------------------------------------------ call forms *)
@@ -123,17 +172,24 @@ Lemma two_in_all : forall l, In l two_sigs -> In l all_sigs /\ length l = 2%nat.
 Proof. intros l H. unfold two_sigs in H. exact_args_cases; cbn; auto 20. Qed.
 
 (* f'[v1 ... vn]: one application per element, in order, each to exactly that element *)
+Definition never_raises (c : pyc) : Prop := forall a, praises c a = false.
+Definition sval (c : ctx) (v : val) : Prop := reval c v = v.
+
+Lemma stable_of_sval : forall c vs, Forall (sval c) vs -> stable c vs.
+Proof. intros c vs H. unfold stable. induction H as [|v vs Hv H IH]; cbn; [reflexivity | rewrite Hv, IH; reflexivity]. Qed.
+
 Lemma each_exact : forall fl n c l vs st,
   args_positional fl = true -> In l one_sigs -> sig_of c l ->
-  c_lookup (scx st) n = Some (EPy c) ->
+  c_lookup (scx st) n = Some (EPy c) -> never_raises c -> Forall (sval (scx st)) vs ->
   each_loop fl st n vs =
     (mkState (scx st) (log st ++ map (fun v => (pid c, [v])) vs), Some (map (fun v => VPyRes (pid c) [v]) vs)).
 Proof.
-  intros fl n c l vs. induction vs as [|v vs IH]; intros st Hf Hin Hs Hn; cbn [each_loop map].
+  intros fl n c l vs. induction vs as [|v vs IH]; intros st Hf Hin Hs Hn Hnr Hsv; cbn [each_loop map].
   - rewrite app_nil_r. destruct st; reflexivity.
-  - destruct (one_in_all l Hin) as [Hall Hlen].
-    rewrite (apply_exact fl st n c l [v] Hf Hall Hs (eq_sym Hlen) Hn). unfold applied.
-    rewrite (IH (mkState (scx st) (log st ++ [(pid c, [v])])) Hf Hin Hs Hn). cbn.
+  - destruct (one_in_all l Hin) as [Hall Hlen]. inversion Hsv as [|? ? Hv Hsv']; subst.
+    assert (Hst : stable (scx st) [v]) by (apply stable_of_sval; constructor; [exact Hv | constructor]).
+    rewrite (apply_exact fl st n c l [v] Hf Hall Hs (eq_sym Hlen) Hn Hst (Hnr _)). unfold applied.
+    rewrite (IH (mkState (scx st) (log st ++ [(pid c, [v])])) Hf Hin Hs Hn Hnr Hsv'). cbn.
     rewrite <- app_assoc. reflexivity.
 Qed.
 
@@ -146,16 +202,17 @@ Fixpoint over_log (p : Z) (acc : val) (vs : list val) : list (Z * list val) :=
 (* f/[v1 ... vn]: a left fold, one application per step to (accumulator, element) *)
 Lemma over_exact : forall fl n c l vs acc st,
   args_positional fl = true -> In l two_sigs -> sig_of c l ->
-  c_lookup (scx st) n = Some (EPy c) ->
+  c_lookup (scx st) n = Some (EPy c) -> never_raises c -> sval (scx st) acc -> Forall (sval (scx st)) vs ->
   over_loop fl st n acc vs =
     (mkState (scx st) (log st ++ over_log (pid c) acc vs),
      Some (fold_left (fun a v => VPyRes (pid c) [a; v]) vs acc)).
 Proof.
-  intros fl n c l vs. induction vs as [|v vs IH]; intros acc st Hf Hin Hs Hn; cbn [over_loop over_log fold_left].
+  intros fl n c l vs. induction vs as [|v vs IH]; intros acc st Hf Hin Hs Hn Hnr Ha Hsv; cbn [over_loop over_log fold_left].
   - rewrite app_nil_r. destruct st; reflexivity.
-  - destruct (two_in_all l Hin) as [Hall Hlen].
-    rewrite (apply_exact fl st n c l [acc; v] Hf Hall Hs (eq_sym Hlen) Hn). unfold applied.
-    rewrite (IH (VPyRes (pid c) [acc; v]) (mkState (scx st) (log st ++ [(pid c, [acc; v])])) Hf Hin Hs Hn). cbn.
+  - destruct (two_in_all l Hin) as [Hall Hlen]. inversion Hsv as [|? ? Hv Hsv']; subst.
+    assert (Hst : stable (scx st) [acc; v]) by (apply stable_of_sval; repeat constructor; assumption).
+    rewrite (apply_exact fl st n c l [acc; v] Hf Hall Hs (eq_sym Hlen) Hn Hst (Hnr _)). unfold applied.
+    rewrite (IH (VPyRes (pid c) [acc; v]) (mkState (scx st) (log st ++ [(pid c, [acc; v])])) Hf Hin Hs Hn Hnr eq_refl Hsv'). cbn.
     rewrite <- app_assoc. reflexivity.
 Qed.
 
@@ -220,11 +277,11 @@ Qed.
 Lemma wrapper_follows : forall fl st sym cap cur args,
   c_lookup (scx st) sym = Some (EKfn cur) ->
   wrapper_call fl st sym cap args =
-    (if (length args =? karity cur)%nat then (st, RVal (VKRes (kid cur) args)) else (st, RErr)) /\
+    (if (length args =? karity cur)%nat then (st, RVal (VKRes (kid cur) (map (reval (scx st)) args))) else (st, RErr)) /\
   (length args = karity cur -> apply_name fl st sym args = wrapper_call fl st sym cap args).
 Proof.
   intros fl st sym cap cur args H. unfold wrapper_call, apply_name. rewrite H. cbn [call_entry]. split; [reflexivity|].
-  intro Hl. rewrite Hl, Nat.eqb_refl, Nat.ltb_irrefl. rewrite <- Hl, firstn_all. reflexivity.
+  intro Hl. rewrite Hl, Nat.eqb_refl, Nat.ltb_irrefl. rewrite <- Hl, <- (map_length (reval (scx st)) args), firstn_all. reflexivity.
 Qed.
 
 Lemma wrapper_fallback : forall fl st sym cap args,
@@ -276,17 +333,22 @@ Qed.
 (* what an imported callable of n <= 3 required parameters does when applied to n arguments:
    KGLambda(item, args = x,y,z[:n]) is a callable whose declared names are that prefix *)
 Definition imported_pyc (p : Z) (n : nat) (klong : bool) : pyc :=
-  mkPyc p ((if klong then [PKlong] else []) ++ firstn n [PX; PY; PZ]).
+  mkPyc p ((if klong then [PKlong] else []) ++ firstn n [PX; PY; PZ]) (fun _ => false).
 
-Lemma import_call_exact : forall fl st p n k args, (n <= 3)%nat -> length args = n ->
+Lemma import_call_exact : forall fl st p n k args, (n <= 3)%nat -> length args = n -> stable (scx st) args ->
   call_lambda fl st (imported_pyc p n k) args = applied st (imported_pyc p n k) args.
 Proof.
-  intros fl st p n k args Hn Hl.
+  intros fl st p n k args Hn Hl Hst.
   apply (call_exact_prefix fl st (imported_pyc p n k) (firstn n [PX; PY; PZ]) args).
   - destruct n as [|[|[|[|n]]]]; cbn; auto 20; lia.
   - unfold sig_of, imported_pyc; cbn. destruct k; [right | left]; reflexivity.
   - rewrite Hl. destruct n as [|[|[|[|n]]]]; cbn; try reflexivity; lia.
+  - exact Hst.
+  - reflexivity.
 Qed.
+
+(* an application that neither re-evaluates an argument nor raises *)
+Definition quiet (cx : ctx) (c : pyc) (args : list val) : Prop := stable cx args /\ praises c args = false.
 
 (* shape premise, see C10/Proofs.v *)
 Lemma shaped {P : Prop} : forall shape_ok : bool, shape_ok = true -> P -> P.
@@ -295,26 +357,27 @@ Proof. intros _ _ H. exact H. Qed.
 Lemma readback_callable : forall fl h n lg c l args, args_positional fl = true ->
   c_lookup (hrun fl [[]] h) n = option_map wrap (Some (PCall c)) ->
   NoDup l -> forallb xyz_name l = true -> sig_of c l -> length args = length l ->
+  quiet (hrun fl [[]] h) c args ->
   let st := mkState (hrun fl [[]] h) lg in
   read_name st n = BWrapper n (EPy c) /\
   apply_name fl st n args = applied st c args /\
   call_readback fl st (read_name st n) args = applied st c args.
 Proof.
-  intros fl h n lg c l args Hf Hl Hnd Hall Hsig Hlen st. cbn in Hl.
+  intros fl h n lg c l args Hf Hl Hnd Hall Hsig Hlen [Hq1 Hq2] st. cbn in Hl.
   assert (Hr : read_name st n = BWrapper n (EPy c)) by (unfold read_name, st; cbn [scx]; rewrite Hl; reflexivity).
   pose proof (all_sigs_complete l Hnd Hall) as Hin.
   split; [exact Hr|]. split.
-  - apply (apply_exact fl st n c l args Hf Hin Hsig Hlen). exact Hl.
+  - apply (apply_exact fl st n c l args Hf Hin Hsig Hlen); [exact Hl | exact Hq1 | exact Hq2].
   - rewrite Hr. cbn [call_readback]. unfold wrapper_call. unfold st at 1; cbn [scx]. rewrite Hl. cbn [call_entry].
     rewrite (lam_arity_sig fl c l Hf Hin Hsig), Hlen, Nat.eqb_refl.
-    apply (call_exact fl st c l args Hf Hin Hsig Hlen).
+    apply (call_exact fl st c l args Hf Hin Hsig Hlen); [exact Hq1 | exact Hq2].
 Qed.
 
 Lemma wrapper_history : forall fl, setitem_wraps fl = true -> forall h n cap cur args lg,
   last_set h n None = Some (PKfn cur) -> length args = karity cur ->
   let st := mkState (hrun fl [[]] h) lg in
-  wrapper_call fl st n cap args = (st, RVal (VKRes (kid cur) args)) /\
-  apply_name fl st n args = (st, RVal (VKRes (kid cur) args)).
+  wrapper_call fl st n cap args = (st, RVal (VKRes (kid cur) (map (reval (scx st)) args))) /\
+  apply_name fl st n args = (st, RVal (VKRes (kid cur) (map (reval (scx st)) args))).
 Proof.
   intros fl Hw h n cap cur args lg Hl Hlen st.
   assert (Hc : c_lookup (scx st) n = Some (EKfn cur)).
@@ -325,26 +388,31 @@ Qed.
 
 Lemma form_each_exact : forall fl n c l vs st,
   args_positional fl = true -> In l one_sigs -> sig_of c l -> c_lookup (scx st) n = Some (EPy c) ->
+  never_raises c -> Forall (sval (scx st)) vs ->
   run_form fl st n (FEach vs) =
     (mkState (scx st) (log st ++ map (fun v => (pid c, [v])) vs), RVal (VList (map (fun v => VPyRes (pid c) [v]) vs))).
-Proof. intros fl n c l vs st Hf Hin Hs Hn. cbn [run_form]. rewrite (each_exact fl n c l vs st Hf Hin Hs Hn). reflexivity. Qed.
+Proof. intros fl n c l vs st Hf Hin Hs Hn Hnr Hsv. cbn [run_form]. rewrite (each_exact fl n c l vs st Hf Hin Hs Hn Hnr Hsv). reflexivity. Qed.
 
 Lemma form_over_exact : forall fl n c l v vs st,
   args_positional fl = true -> In l two_sigs -> sig_of c l -> c_lookup (scx st) n = Some (EPy c) ->
+  never_raises c -> Forall (sval (scx st)) (v :: vs) ->
   run_form fl st n (FOver (v :: vs)) =
     (mkState (scx st) (log st ++ over_log (pid c) v vs), RVal (fold_left (fun a x => VPyRes (pid c) [a; x]) vs v)).
-Proof. intros fl n c l v vs st Hf Hin Hs Hn. cbn [run_form]. rewrite (over_exact fl n c l vs v st Hf Hin Hs Hn). reflexivity. Qed.
+Proof.
+  intros fl n c l v vs st Hf Hin Hs Hn Hnr Hsv. inversion Hsv as [|? ? Hv Hsv']; subst.
+  cbn [run_form]. rewrite (over_exact fl n c l vs v st Hf Hin Hs Hn Hnr Hv Hsv'). reflexivity.
+Qed.
 
 Lemma form_by_name_exact : forall fl st n c l args,
   args_positional fl = true ->
   NoDup l -> forallb xyz_name l = true -> sig_of c l -> length args = length l ->
-  c_lookup (scx st) n = Some (EPy c) ->
+  c_lookup (scx st) n = Some (EPy c) -> quiet (scx st) c args ->
   run_form fl st n (FDirect args) = applied st c args /\
   run_form fl st n (FAt args) = applied st c args /\
   (forall holes xs, fill holes xs = args -> run_form fl st n (FProj holes xs) = applied st c args).
 Proof.
-  intros fl st n c l args Hf Hnd Hall Hs Hlen Hn.
-  pose proof (apply_exact fl st n c l args Hf (all_sigs_complete l Hnd Hall) Hs Hlen Hn) as H.
+  intros fl st n c l args Hf Hnd Hall Hs Hlen Hn [Hq1 Hq2].
+  pose proof (apply_exact fl st n c l args Hf (all_sigs_complete l Hnd Hall) Hs Hlen Hn Hq1 Hq2) as H.
   cbn [run_form]. repeat split; try exact H. intros holes xs Hfill. rewrite Hfill. exact H.
 Qed.
 
@@ -354,6 +422,7 @@ Lemma store_readback : forall fl, args_positional fl = true -> setitem_wraps fl 
   (last_set h n None = None -> read_name st n = BKeyError) /\
   (forall c l args, last_set h n None = Some (PCall c) ->
      NoDup l -> forallb xyz_name l = true -> sig_of c l -> length args = length l ->
+     quiet (hrun fl [[]] h) c args ->
      read_name st n = BWrapper n (EPy c) /\
      apply_name fl st n args = applied st c args /\
      call_readback fl st (read_name st n) args = applied st c args).
@@ -364,9 +433,9 @@ Proof.
   repeat split.
   - intros v Hl. unfold read_name, st; cbn [scx]. rewrite Hl in Hs. cbn in Hs. rewrite Hs. reflexivity.
   - intros Hl. unfold read_name, st; cbn [scx]. rewrite Hl in Hs. cbn in Hs. rewrite Hs. reflexivity.
-  - rewrite H in Hs. exact (proj1 (readback_callable fl h n lg c l args Hf Hs H0 H1 H2 H3)).
-  - rewrite H in Hs. exact (proj1 (proj2 (readback_callable fl h n lg c l args Hf Hs H0 H1 H2 H3))).
-  - rewrite H in Hs. exact (proj2 (proj2 (readback_callable fl h n lg c l args Hf Hs H0 H1 H2 H3))).
+  - rewrite H in Hs. exact (proj1 (readback_callable fl h n lg c l args Hf Hs H0 H1 H2 H3 H4)).
+  - rewrite H in Hs. exact (proj1 (proj2 (readback_callable fl h n lg c l args Hf Hs H0 H1 H2 H3 H4))).
+  - rewrite H in Hs. exact (proj2 (proj2 (readback_callable fl h n lg c l args Hf Hs H0 H1 H2 H3 H4))).
 Qed.
 
 (* ------------------------------------------------------------------ multi-stage projections *)
@@ -427,26 +496,26 @@ Lemma staged_exact : forall fl st n c l s0 rest args vs,
   args_positional fl = true -> NoDup l -> forallb xyz_name l = true -> sig_of c l ->
   c_lookup (scx st) n = Some (EPy c) ->
   Forall2 entry_ok s0 args -> chain_ok s0 args rest -> length args = length l ->
-  all_some (merge (s0 :: rest)) = Some vs ->
+  all_some (merge (s0 :: rest)) = Some vs -> quiet (scx st) c args ->
   run_form fl st n (FStaged (s0 :: rest)) = applied st c args.
 Proof.
-  intros fl st n c l s0 rest args vs Hf Hnd Hall Hs Hn H0 Hc Hlen Hv.
+  intros fl st n c l s0 rest args vs Hf Hnd Hall Hs Hn H0 Hc Hlen Hv [Hq1 Hq2].
   cbn [run_form]. unfold apply_staged. rewrite Hv. rewrite (merge_positional s0 rest args vs H0 Hc Hv).
-  apply (apply_exact fl st n c l args Hf (all_sigs_complete l Hnd Hall) Hs Hlen Hn).
+  apply (apply_exact fl st n c l args Hf (all_sigs_complete l Hnd Hall) Hs Hlen Hn Hq1 Hq2).
 Qed.
 
 (* Each over a projection with one open slot: one application per element, to the assembled arguments *)
 Lemma staged_each_exact : forall fl n c l stages (g : val -> list val) vs st,
   args_positional fl = true -> NoDup l -> forallb xyz_name l = true -> sig_of c l ->
   c_lookup (scx st) n = Some (EPy c) ->
-  (forall v, all_some (merge (stages ++ [[Some v]])) = Some (g v) /\ length (g v) = length l) ->
+  (forall v, all_some (merge (stages ++ [[Some v]])) = Some (g v) /\ length (g v) = length l /\ quiet (scx st) c (g v)) ->
   staged_each_loop fl st n stages vs =
     (mkState (scx st) (log st ++ map (fun v => (pid c, g v)) vs), Some (map (fun v => VPyRes (pid c) (g v)) vs)).
 Proof.
   intros fl n c l stages g vs. induction vs as [|v vs IH]; intros st Hf Hnd Hall Hs Hn Hg; cbn [staged_each_loop map].
   - rewrite app_nil_r. destruct st; reflexivity.
-  - unfold apply_staged. destruct (Hg v) as [Hv Hl]. rewrite Hv.
-    rewrite (apply_exact fl st n c l (g v) Hf (all_sigs_complete l Hnd Hall) Hs Hl Hn). unfold applied.
+  - unfold apply_staged. destruct (Hg v) as [Hv [Hl [Hq1 Hq2]]]. rewrite Hv.
+    rewrite (apply_exact fl st n c l (g v) Hf (all_sigs_complete l Hnd Hall) Hs Hl Hn Hq1 Hq2). unfold applied.
     rewrite (IH (mkState (scx st) (log st ++ [(pid c, g v)])) Hf Hnd Hall Hs Hn Hg). cbn.
     rewrite <- app_assoc. reflexivity.
 Qed.
@@ -486,7 +555,7 @@ Lemma import_exact_plain : forall follow it ps,
   (follow = true \/ idecorated it = false) -> ireal it = ps -> Forall plainp ps -> (length ps <= 3)%nat ->
   register follow it = Some (ELam it (length ps) false false) /\
   forall fl st n args, c_lookup (scx st) n = Some (ELam it (length ps) false false) -> length args = length ps ->
-    apply_name fl st n args = item_applied st it args.
+    stable (scx st) args -> apply_name fl st n args = item_applied st it args.
 Proof.
   intros follow it ps Hfd Hr Hp Hlen. destruct (plain_facts ps Hp) as [F1 [F2 [F3 [F4 [F5 F6]]]]].
   assert (Hi : inspect_sig follow it = ps).
@@ -494,7 +563,7 @@ Proof.
   split.
   - unfold register. rewrite Hi.
     rewrite (import_lambda ps F3); rewrite ?F1; auto.
-  - intros fl st n args Hn Hl. unfold apply_name. rewrite Hn. unfold call_item.
+  - intros fl st n args Hn Hl Hst. unfold apply_name. rewrite Hn. unfold call_item, call_frame. rewrite Hst.
     rewrite <- Hl. rewrite (pos_from_frame args (scx st)) by lia.
     unfold accepts. rewrite Hr, F1, F2. fold kwonly_required. rewrite F6. rewrite Hl, Nat.leb_refl. cbn. reflexivity.
 Qed.
@@ -504,7 +573,7 @@ Lemma import_exact_klong : forall follow it kp ps,
   (follow = true \/ idecorated it = false) -> ireal it = kp :: ps -> klongp kp -> Forall plainp ps -> (length ps <= 3)%nat ->
   register follow it = Some (ELam it (length ps) true false) /\
   forall fl st n args, c_lookup (scx st) n = Some (ELam it (length ps) true false) -> length args = length ps ->
-    apply_name fl st n args = item_applied st it args.
+    stable (scx st) args -> apply_name fl st n args = item_applied st it args.
 Proof.
   intros follow it kp ps Hfd Hr [Kk [Kd [Kn Kkl]]] Hp Hlen. destruct (plain_facts ps Hp) as [F1 [F2 [F3 [F4 [F5 F6]]]]].
   assert (Hi : inspect_sig follow it = kp :: ps).
@@ -521,7 +590,7 @@ Proof.
       - rewrite Hreq. cbn. rewrite Kkl. reflexivity.
       - rewrite Hreq. cbn. lia. }
     rewrite Hh, Hreq. cbn [length]. replace (S (length ps) - 1)%nat with (length ps) by lia. reflexivity.
-  - intros fl st n args Hn Hl. unfold apply_name. rewrite Hn. unfold call_item.
+  - intros fl st n args Hn Hl Hst. unfold apply_name. rewrite Hn. unfold call_item, call_frame. rewrite Hst.
     rewrite <- Hl. rewrite (pos_from_frame args (scx st)) by lia.
     unfold accepts. rewrite Hr, Hreq, Hcap. cbn [existsb]. rewrite Kk.
     change (existsb (fun p : iparam => match ip_kind p with KKwOnly => negb (ip_default p) | _ => false end) ps)
@@ -535,4 +604,69 @@ Lemma wild_toplevel : forall args outer, (length args <= 3)%nat ->
   get_pos_wild (zip_frame xyz args :: outer) xyz = args.
 Proof.
   intros args outer H H0 H1 H2. destruct args as [|a [|b [|c [|d r]]]]; cbn in H; try lia; cbn; rewrite ?H0, ?H1, ?H2; reflexivity.
+Qed.
+
+(* ------------------------------------------------------------------ round 2: raising callables, surplus arguments, any scope *)
+(* Each stops at the first element for which the callable raises: that call is logged, none after it *)
+Lemma each_raises : forall fl n c l pre b post st,
+  args_positional fl = true -> pop_finally fl = true -> In l one_sigs -> sig_of c l ->
+  c_lookup (scx st) n = Some (EPy c) ->
+  (forall v, In v pre -> praises c [v] = false) -> praises c [b] = true ->
+  Forall (sval (scx st)) (pre ++ [b]) ->
+  each_loop fl st n (pre ++ b :: post) =
+    (mkState (scx st) (log st ++ map (fun v => (pid c, [v])) (pre ++ [b])), None).
+Proof.
+  intros fl n c l pre b post. induction pre as [|v pre IH]; intros st Hf Hpop Hin Hs Hn Hq Hb Hsv.
+  - cbn [app each_loop map]. destruct (one_in_all l Hin) as [Hall Hlen]. inversion Hsv as [|? ? Hv _]; subst.
+    assert (Hst : stable (scx st) [b]) by (apply stable_of_sval; constructor; [exact Hv | constructor]).
+    rewrite (apply_full fl st n c l [b] Hf Hall Hs (eq_sym Hlen) Hn).
+    rewrite (call_raises fl st c l [b] Hf Hpop Hall Hs (eq_sym Hlen) Hst Hb). reflexivity.
+  - cbn [app each_loop map]. destruct (one_in_all l Hin) as [Hall Hlen]. cbn [app] in Hsv. inversion Hsv as [|? ? Hv Hsv']; subst.
+    assert (Hst : stable (scx st) [v]) by (apply stable_of_sval; constructor; [exact Hv | constructor]).
+    rewrite (apply_exact fl st n c l [v] Hf Hall Hs (eq_sym Hlen) Hn Hst (Hq v (or_introl eq_refl))). unfold applied.
+    rewrite (IH (mkState (scx st) (log st ++ [(pid c, [v])])) Hf Hpop Hin Hs Hn (fun w Hw => Hq w (or_intror Hw)) Hb Hsv'). cbn.
+    rewrite <- app_assoc. reflexivity.
+Qed.
+
+(* more arguments than declared (at most three can be written): the surplus is dropped, nothing else changes *)
+Lemma call_surplus : forall fl st c l args,
+  args_positional fl = true -> In l all_sigs -> sig_of c l -> (length l <= length args <= 3)%nat ->
+  stable (scx st) args -> (pop_finally fl = true \/ praises c (firstn (length l) args) = false) ->
+  call_lambda fl st c args = called st c (firstn (length l) args).
+Proof.
+  intros fl st [p ps pr] l args Hf Hin [Hs|Hs] Hlen Hst Hp; cbn in Hs; subst ps;
+    unfold call_lambda, call_frame; rewrite Hst; clear Hst;
+    unfold all_sigs in Hin; exact_args_cases;
+    cbn in Hlen;
+    repeat (destruct args as [|? args]; cbn in Hlen; try lia);
+    unfold lam_call, lam_args, provide_klong, called, after_call; cbn; rewrite Hf; cbn;
+    cbn in Hp; (destruct Hp as [Hp|Hp]; [rewrite Hp; destruct (pr _); reflexivity | rewrite Hp; reflexivity]).
+Qed.
+
+(* klong[n] = v in ANY scope stack (also from inside a running function): the name reads back as the wrapped value,
+   every other name is untouched *)
+Lemma c_set_existing_lookup : forall c n e c', c_set_existing c n e = Some c' ->
+  forall k, c_lookup c' k = if k =? n then Some e else c_lookup c k.
+Proof.
+  induction c as [|f c IH]; intros n e c' H k; cbn in H; [discriminate|].
+  destruct (f_lookup f n) eqn:E.
+  - inversion H; subst. cbn [c_lookup]. rewrite f_lookup_set. destruct (k =? n); reflexivity.
+  - destruct (c_set_existing c n e) as [r'|] eqn:E2; [|discriminate]. inversion H; subst. cbn [c_lookup].
+    destruct (k =? n) eqn:Ek.
+    + apply Z.eqb_eq in Ek. subst k. rewrite E. rewrite (IH n e r' E2 n), Z.eqb_refl. reflexivity.
+    + destruct (f_lookup f k); [reflexivity|]. rewrite (IH n e r' E2 k), Ek. reflexivity.
+Qed.
+
+Lemma c_set_lookup : forall fl c n v, setitem_wraps fl = true ->
+  forall k, c_lookup (c_set fl c n v) k = if k =? n then Some (wrap v) else c_lookup c k.
+Proof.
+  intros fl c n v Hw k. unfold c_set. rewrite Hw.
+  assert (Hfresh : c_lookup (match c with f :: r => f_set f n (wrap v) :: r | [] => [[(n, wrap v)]] end) k
+                   = if k =? n then Some (wrap v) else c_lookup c k).
+  { destruct c as [|f r]; cbn [c_lookup].
+    - cbn. rewrite (Z.eqb_sym n k). destruct (k =? n); reflexivity.
+    - rewrite f_lookup_set. destruct (k =? n); reflexivity. }
+  destruct (reserved n); [exact Hfresh|].
+  destruct (c_set_existing c n (wrap v)) as [c'|] eqn:E; [|exact Hfresh].
+  apply (c_set_existing_lookup c n (wrap v) c' E).
 Qed.
